@@ -45,6 +45,12 @@ enum JoinState {
 
 impl JoinState {
     fn join(&mut self) {
+        // wait while the state is still `Running`: when the owner is cancelled in
+        // here the unwind must leave the handle in place, the scope joins the
+        // coroutine again on its way out
+        if let JoinState::Running(handle) = self {
+            handle.wait();
+        }
         let mut state = JoinState::Joined;
         mem::swap(self, &mut state);
         if let JoinState::Running(handle) = state {
